@@ -48,7 +48,7 @@ func c08Baseline(h *hist) ([]*harness.BlockResult, error) {
 	if b, ok := c08Base[h.ID]; ok {
 		return b, nil
 	}
-	res, err := runPlain(h.W, noCheck(h.Blocks), false)
+	res, err := runPlainAs(h.W, harness.NaturalIdentityOf(h.W.Vals[0]), noCheck(h.Blocks), false)
 	if err != nil {
 		return nil, err
 	}
@@ -67,7 +67,7 @@ func c08Exec(j c08Job) c08Res {
 	}
 	h, _ = buildHist(j.Scn, c08Extra) // fresh world/specs for the second execution
 	blocks := noCheck(h.Blocks)
-	x, err := harness.StartRun(h.W)
+	x, err := harness.StartRunAs(h.W, harness.NaturalIdentityOf(h.W.Vals[0]))
 	if err != nil {
 		return c08Res{Err: err.Error()}
 	}
